@@ -103,9 +103,8 @@ HALF = [x / 2.0 for x in range(2 * (LO - 1), 2 * (HI + 1) + 1)]
 
 
 def _val(rng, v):
-    """an integral value goes in as int or float, a half-integer as float"""
-    if v == int(v) and rng.random() < 0.5:
-        return int(v)
+    """every end goes in as a float: the jitted kernels are specialised on the type of the
+    bounds tuple, and each int/float mix would cost a fresh compilation (seconds)"""
     return float(v)
 
 
@@ -169,10 +168,10 @@ def gen_keys(rng, extent, per_pattern=1, extra=True):
                     (C.Rec('KScalar', int(x * SCALE)), C.Rec('KScalar', int(y * SCALE))), 'scalar/scalar'))
         x = rng.choice(ints)
         ky, sy = _axis(rng, rng.choice(AXIS_PATTERNS), ylo, yhi)
-        out.append(((x, ky), (C.Rec('KScalar', int(x * SCALE)), mk_slice(sy)), 'scalar/slice'))
+        out.append(((float(x), ky), (C.Rec('KScalar', int(x * SCALE)), mk_slice(sy)), 'scalar/slice'))
         y = rng.choice(ints)
         kx, sx = _axis(rng, rng.choice(AXIS_PATTERNS), xlo, xhi)
-        out.append(((kx, y), (mk_slice(sx), C.Rec('KScalar', int(y * SCALE))), 'slice/scalar'))
+        out.append(((kx, float(y)), (mk_slice(sx), C.Rec('KScalar', int(y * SCALE))), 'slice/scalar'))
         # a step (even 1) is rejected
         kx, sx = _axis(rng, rng.choice(AXIS_PATTERNS), xlo, xhi)
         ky, sy = _axis(rng, rng.choice(AXIS_PATTERNS), ylo, yhi)
